@@ -124,6 +124,10 @@ def run(ctx):
                   "(python_full_version < '3.7' or python_full_version >= '3.10') and os_name == 'y'"),
                  (('and', "(os_name < 'b' and extra == 'x') or os_name >= 'c'", "extra != 'x'"), "os_name >= 'c' and extra != 'x'"),
                  (('or', "(python_full_version < '3.8' or os_name == 'x') and python_full_version < '3.9'", "os_name != 'x'"), "python_full_version < '3.9' or os_name != 'x'"),
+                 (('or', "(python_full_version == '3.8.*' and os_name == 'a') or python_full_version >= '3.9'", "(python_full_version == '3.8.*' and os_name != 'a') or python_full_version >= '3.9'"), "python_full_version >= '3.8'"),
+                 (('or', "os_name < 'b' or (os_name == 'b' and extra == 'x')", "os_name < 'b' or (os_name == 'b' and extra != 'x')"), "os_name <= 'b'"),
+                 (('and', "(python_full_version == '3.8.*' or os_name == 'a') and python_full_version >= '3.8'", "(python_full_version == '3.8.*' or os_name != 'a') and python_full_version >= '3.8'"), "python_full_version == '3.8.*'"),
+                 (('and', "python_full_version >= '3.8' and (python_full_version < '3.9' or extra == 'x')", "python_full_version >= '3.8' and (python_full_version < '3.9' or extra != 'x')"), "python_full_version >= '3.8' and python_full_version < '3.9'"),
                  (('simpx', "(python_full_version < '3.8' and extra == 'a') or (python_full_version >= '3.8' and python_full_version < '3.9')", ['a']), "python_full_version < '3.9'"),
                  (('simpx', "(os_name < 'b' and extra != 'a') or os_name >= 'b'", ['a']), "os_name >= 'b'"),
                  (('simpx', "(python_full_version >= '3.9' and extra == 'a') or (python_full_version >= '3.8' and python_full_version < '3.9')", ['a']), "python_full_version >= '3.8'")]
